@@ -51,9 +51,9 @@ def load_findings():
 
 def match_finding(findings, pid, signature):
     import fnmatch
-    if '/handmade:' in signature:
+    if '/handmade:' in signature or signature.endswith('/handmade'):
         # the same defect reproduced on a hand-shaped program (vlib/handprog.py) is the same finding
-        base = signature.split('/handmade:')[0]
+        base = signature.split('/handmade:')[0] if '/handmade:' in signature else signature[:-len('/handmade')]
         hit = match_finding(findings, pid, base)
         return hit if (hit is not None and hit.get('also_on_handmade_programs')) else None
     for f in findings:
